@@ -62,6 +62,9 @@ SumFits(s) == LcmB(s, 1) <= 2000000
 \* sum of the rationals in s equals the rational t   (needs SumFits(s); values are O(10))
 SumEq(s, t) == LET l == LcmB(s, 1)
                IN ISum([k \in 1..Len(s) |-> s[k][1] * (l \div s[k][2])]) * t[2] = t[1] * l
+\* the same, vacuously true for a sum that does not fit (one lcm computation)
+SumIs(s, t) == LET l == LcmB(s, 1)
+               IN l <= 2000000 => ISum([k \in 1..Len(s) |-> s[k][1] * (l \div s[k][2])]) * t[2] = t[1] * l
 
 (* ----- 2D ----------------------------------------------------------------------------------------- *)
 Area2(t) == LET u == <<t[2][1] - t[1][1], t[2][2] - t[1][2]>>
